@@ -132,6 +132,16 @@ CLAIMS = {
          "the exact on/off probe sets, and center/radius/foci/area/volume read-backs; from_tangent/from_foci are checked through "
          "the stated relation (incidence, tangency and isotropic tangents evaluated by the harness in complex arithmetic).",
     design="5/C13", technique="TLC enumeration of defining data with exact locus matrices + replay (classes, probes, relations)"),
+ "C14": dict(
+    text="C14_QuadricLine.tla parametrises every lattice line as sA+tB, forms the binary quadratic of the quadric on it and "
+         "assigns the stratum from the discriminant (tangent, secant-rational, complex-gaussian, secant-/complex-irrational, "
+         "line-in-quadric) for generic symmetric matrices, circles, ellipse, hyperbola, parabola, imaginary conic, line pairs, "
+         "double line, spheres, cone, cylinder, hyperboloid and plane pairs; exact real/Gaussian points are emitted where they "
+         "exist and certified (on both; a secant through two lattice points of the quadric returns those two); pole/polar "
+         "reciprocity, tangency via the adjugate and dual-of-dual are certified; geometer's intersect/tangent/polar/dual/"
+         "is_tangent are compared per stratum (exact sets, contact point once or twice, conjugate pairs, facts for irrational "
+         "points) for every quadric class.",
+    design="5/C14", technique="TLC enumeration with discriminant-stratified exact intersection oracle + replay"),
 }
 
 checks = []
